@@ -341,7 +341,15 @@ pub fn write_if_changed(path: &Path, content: &str) {
 
 pub const NUTYPE_DEP: &str = "nutype = { path = \"/repo/nutype\", features = [\"serde\", \"regex\", \"arbitrary\", \"new_unchecked\"] }";
 
-pub fn generate(tier: Tier, out: &Path, ncrates: usize) {
+/// placeholder module for a subject that does not compile against the current tree
+fn stub_module(i: usize, s: &Subj) -> String {
+    format!(
+        "pub mod s{i} {{\n    // excluded: this subject does not compile against the current tree (see ./check C08)\n    use ntdrv::subject::*; use ntcore::model::Val;\n    pub struct G;\n    impl Subject for G {{\n        fn idx(&self) -> usize {{ {i} }}\n        fn type_name(&self) -> &'static str {{ \"{}\" }}\n        fn excluded(&self) -> bool {{ true }}\n        fn construct(&self, _raw: &Val) -> Outcome {{ Outcome::Absent }}\n    }}\n}}\n",
+        s.decl.name
+    )
+}
+
+pub fn generate(tier: Tier, out: &Path, ncrates: usize, skip: &[usize]) {
     let subs = rt_subjects(tier);
     // sanity: REF must be able to interpret every subject (panics here are generator bugs)
     for s in &subs {
@@ -362,7 +370,11 @@ pub fn generate(tier: Tier, out: &Path, ncrates: usize) {
         members.push(cname.clone());
         let mut lib = String::from("// generated by ntgen – do not edit\n#![allow(unused, non_snake_case, clippy::all)]\n");
         for &i in idxs {
-            lib.push_str(&subject_module(i, &subs[i]));
+            if skip.contains(&i) {
+                lib.push_str(&stub_module(i, &subs[i]));
+            } else {
+                lib.push_str(&subject_module(i, &subs[i]));
+            }
         }
         lib.push_str("pub fn subjects() -> Vec<Box<dyn ntdrv::subject::Subject>> {\n    vec![\n");
         for &i in idxs {
@@ -394,5 +406,5 @@ pub fn generate(tier: Tier, out: &Path, ncrates: usize) {
     if !out.join("Cargo.lock").exists() {
         let _ = std::fs::copy("/verif/harness/Cargo.lock", out.join("Cargo.lock"));
     }
-    eprintln!("ntgen rt: {} subjects in {} crates under {}", subs.len(), ncrates, out.display());
+    eprintln!("ntgen rt: {} subjects ({} excluded) in {} crates under {}", subs.len(), skip.len(), ncrates, out.display());
 }
